@@ -143,6 +143,12 @@ Section Tab10.
   Definition keep (fn : string) (v : N) : bool :=
     if String.eqb fn "" then true
     else match cli_filter_of fn cli_filters with Some (k, n) => fmatch k n (rule_of v) | None => false end.
+  (* what the command OUGHT to report: the findings whose rule id is emitted by a rule class of the command's own
+     linter package (spec_rules: indices into rule_ids, attributed by the harness by running each rule on its own) *)
+  Variable spec_rules : list nat.
+  Definition keep_spec (fn : string) (v : N) : bool :=
+    if String.eqb fn "" then true
+    else match n_assoc v rid with Some i => nat_mem i spec_rules | None => false end.
 
   Definition m_cli (q : oquirks) (fs : fsys) (files : list path) (ds : list (nat * list path)) : list N :=
     flat_map out_all (cli_run N (pf_lookup pf_tbl) (t_blocks rep_tbl) (t_rep rep_tbl 1) (t_rep rep_tbl 2)
@@ -160,17 +166,17 @@ Section Tab10.
     | _, _ => false
     end.
 
-  (* [ CLI = API (filtered by the command's rule filter), all findings ;
+  (* [ CLI = API restricted to the command's linter, all findings ;
        the same restricted to what check() returns (findings of rules that judge files one at a time) ;
-       model with all flags off: CLI = API ;
+       model with all flags off: CLI (the command's own filter, from the source) = API restricted to the command's linter ;
        for each candidate q: CLI output = model q and every API output = model q ] *)
   Definition judge10 (q : oquirks) (fs : fsys) (fn : string) (files : list path) (ds : list (nat * list path))
              (cli_impl : list N) (api_impl : list (list N)) : list bool :=
-    let api_all := filter (keep fn) (List.concat api_impl) in
+    let api_all := filter (keep_spec fn) (List.concat api_impl) in
     let ts := targets files ds in
     same cli_impl api_all
     :: same (filter (fun v => negb (is_cross v)) cli_impl) (filter (fun v => negb (is_cross v)) api_all)
-    :: same (filter (keep fn) (m_cli ideal fs files ds)) (filter (keep fn) (flat_map (m_api ideal fs) ts))
+    :: same (filter (keep fn) (m_cli ideal fs files ds)) (filter (keep_spec fn) (flat_map (m_api ideal fs) ts))
     :: map (fun c => same cli_impl (filter (keep fn) (m_cli c fs files ds)) && all_same api_impl (map (m_api c fs) ts))
            (candidates10 q).
 
